@@ -735,6 +735,322 @@ def correspondence(ctx):
         if st != 'raised':
             ctx.disagree('xy_reject', {'j': j}, val, 'raise (index below the first)')
 
+    # ------------------------------------------------------------ names, pairing of the +-m terms, top_n ordering
+    _names_correspondence(ctx)
+
+
+# ------------------------------------------------------------------------------------------------
+# session 3: the other index-convention helpers (names of the orders, pairing of the +-m terms, top_n ordering)
+# ------------------------------------------------------------------------------------------------
+_SUFFIX = {'X': 0, 'Y': 1, '00°': 2, '45°': 3}
+
+
+def _call2(f, *args, limit=20.0):
+    """('ok', raw value) | ('raised', text) | ('timeout', text)"""
+    try:
+        with _limit(limit):
+            return 'ok', f(*args)
+    except _Timeout:
+        return 'timeout', f'no result within {limit} s'
+    except Exception as ex:   # noqa
+        return 'raised', f'{type(ex).__name__}: {ex}'
+
+
+def _zk():
+    import prysm.polynomials as P
+    from prysm.polynomials import zernike as Z
+    return P, Z
+
+
+def _parse_name(Z, s):
+    """real name -> (kind, ordinal, |m| of the column-name table, suffix), the structure `Model.C11.nameKey` describes;
+    None when the string does not have that structure.  The two tables are read from the real module."""
+    if not isinstance(s, str):
+        return None
+    if s == 'Piston':
+        return (0, 0, 0, 4)
+    if s == 'Defocus':
+        return (2, 0, 0, 4)
+    inv_o = {v: k for k, v in Z._names.items()}
+    inv_m = {v: k for k, v in Z._names_m.items()}
+
+    def num(w, tail):
+        if w in (inv_o if tail == 'th' else inv_m):
+            return (inv_o if tail == 'th' else inv_m)[w]
+        if w.endswith(tail) and w[:-len(tail)].lstrip('-').isdigit():
+            return int(w[:-len(tail)])
+        return None
+    parts = s.split(' ')
+    if len(parts) == 2:
+        if parts[0] == 'Tilt' and parts[1] in ('X', 'Y'):
+            return (1, 0, 1, _SUFFIX[parts[1]])
+        if parts[1] == 'Spherical':
+            o = num(parts[0], 'th')
+            return None if o is None else (3, o, 0, 4)
+        return None
+    if len(parts) == 3 and parts[2] in _SUFFIX:
+        o, a = num(parts[0], 'th'), num(parts[1], '-foil')
+        if o is None or a is None:
+            return None
+        return (4, o, a, _SUFFIX[parts[2]])
+    return None
+
+
+def _name_key(n, m):
+    """python mirror of Model.C11.nameKey (search / replay only; the correspondence asks the Lean driver)"""
+    if n == 0:
+        return (0, 0, 0, 4)
+    if n == 1:
+        return (1, 0, 1, 0 if m >= 0 else 1)
+    if m == 0:
+        return (2, 0, 0, 4) if n == 2 else (3, n // 2 - 1, 0, 4)
+    acc = (n - 1) // 2 if m % 2 == 1 else (n - abs(m)) // 2 + 1
+    return (4, acc, abs(m), (0 if m % 2 == 1 else 2) + (0 if m >= 0 else 1))
+
+
+def _magang_expect(lst, groups):
+    """groups: [((n, a), [positions])] -> expected {(n, a): (magnitude, angle)} in order"""
+    out = []
+    for key, pos in groups:
+        v = [lst[i][2] for i in pos]
+        if len(v) == 1:
+            out.append((key, (v[0], 0.0)))
+        elif len(v) == 2:
+            out.append((key, (math.hypot(v[0], v[1]), math.degrees(math.atan2(v[0], v[1])))))
+        else:
+            out.append((key, None))
+    return out
+
+
+def _py_groups(lst):
+    d = {}
+    for i, (n, m, _) in enumerate(lst):
+        d.setdefault((n, abs(m)), []).append(i)
+    return list(d.items())
+
+
+def _magang_check(P, lst, groups):
+    """predicates of the pairing on the real code; returns a detail string or None"""
+    exp = _magang_expect(lst, groups)
+    if any(e[1] is None for e in exp):
+        return None
+    st, val = _call2(P.zernikes_to_magnitude_angle_nmkey, [tuple(x) for x in lst])
+    if st != 'ok':
+        return f'zernikes_to_magnitude_angle_nmkey {st}: {val}'
+    got = val
+    if not isinstance(got, dict):
+        return f'zernikes_to_magnitude_angle_nmkey returned {type(got).__name__}'
+    gk = [tuple(int(x) for x in k) for k in got.keys()]
+    if gk != [k for k, _ in exp]:
+        return f'groups {gk[:6]}… but the (n, |m|) classes in order of first appearance are {[k for k, _ in exp][:6]}…'
+    for (k, (mag, ang)), v in zip(exp, got.values()):
+        gm, ga = float(v[0]), float(v[1])
+        if abs(gm - mag) > 1e-12 * max(1.0, abs(mag)) or abs(ga - ang) > 1e-9:
+            return f'group {k}: (magnitude, angle) = ({gm!r}, {ga!r}), expected ({mag!r}, {ang!r}) = (hypot, degrees(atan2(first, second)))'
+    st, val = _call2(P.zernikes_to_magnitude_angle, [tuple(x) for x in lst])
+    if st != 'ok':
+        return f'zernikes_to_magnitude_angle {st}: {val}'
+    named = val
+    if len(named) != len(exp):
+        return (f'zernikes_to_magnitude_angle returns {len(named)} entries for {len(exp)} (n, |m|) classes: two classes share a name '
+                f'and one overwrites the other')
+    for (k, _), (nk, nv), v in zip(exp, named.items(), got.values()):
+        full = P.nm_to_name(*k)
+        if not (isinstance(nk, str) and full.startswith(nk) and nk) or (float(nv[0]), float(nv[1])) != (float(v[0]), float(v[1])):
+            return f'class {k}: name key {nk!r} / value {nv} does not belong to {full!r} / {v}'
+    return None
+
+
+def _topn_check(P, lst, k):
+    d = {(n, m): c for n, m, c in lst}
+    st, val = _call2(P.top_n, d, k)
+    if st != 'ok':
+        return f'top_n {st}: {val}'
+    res = list(val)
+    keys, vals = list(d.keys()), list(d.values())
+    order = sorted(range(len(vals)), key=lambda i: -abs(vals[i]))[:k]
+    if len(res) != k:
+        return f'top_n(…, {k}) returned {len(res)} entries'
+    for rank, ((v, i, name), j) in enumerate(zip(res, order)):
+        if int(i) != j or float(v) != float(vals[j]) or str(name) != P.nm_to_name(*keys[j]):
+            return (f'entry {rank} is ({v}, {i}, {name}); the term with the {rank + 1}-largest |coefficient| is position {j}, '
+                    f'{keys[j]} = {vals[j]}, {P.nm_to_name(*keys[j])}')
+    return None
+
+
+def _coef_lists(ctx, fwd, count):
+    """coefficient lists [(n, m, c)] as users build them: the first N orders of a convention (Noll / ANSI / Fringe), natural,
+    reversed or shuffled, optionally with terms dropped (unpaired +-m), a rotationally symmetric-only list, a single column"""
+    rng = ctx.rng
+    out = []
+    for t in range(count):
+        conv = ('noll', 'ansi', 'fringe')[t % 3]
+        N = int(rng.integers(1, 90 if t % 7 else 400))
+        js = list(range(FIRST[conv], FIRST[conv] + N))
+        nms = [tuple(closed_form(conv, j)) for j in js]
+        mode = ('natural', 'reversed', 'shuffled', 'dropped', 'column')[t % 5]
+        if mode == 'reversed':
+            nms = nms[::-1]
+        elif mode == 'shuffled':
+            nms = [nms[i] for i in rng.permutation(len(nms))]
+        elif mode == 'dropped':
+            keep = rng.random(len(nms)) < 0.6
+            nms = [x for x, kp in zip(nms, keep) if kp] or nms[:1]
+        elif mode == 'column':
+            a = int(rng.integers(0, 9))
+            nms = [x for x in nms if abs(x[1]) == a] or nms[:1]
+        cs = rng.standard_normal(len(nms)) + 0.05 * np.sign(rng.standard_normal(len(nms)))
+        cs = [float(c) if c != 0 else 0.5 for c in cs]
+        out.append((f'{conv}:{mode}', [(int(n), int(m), c) for (n, m), c in zip(nms, cs)]))
+    return out
+
+
+def _names_correspondence(ctx):
+    P, Z = _zk()
+    NN = ctx.scale(80, 400)
+    if ctx.widen:
+        NN = max(NN, 200)
+    pairs = [(n, m) for n in range(NN + 1) for m in range(-n, n + 1, 2)]
+    lists = _coef_lists(ctx, None, ctx.scale(120, 1200))
+    lines = []
+    for a in range(0, len(pairs), 4000):
+        lines.append('namekeys ' + ' '.join(f'{n} {m}' for n, m in pairs[a:a + 4000]))
+    for _, lst in lists:
+        lines.append('group ' + ' '.join(f'{n} {m}' for n, m, _ in lst))
+    rep = iter(C.lean_driver('C11', lines))
+    keys = []
+    for a in range(0, len(pairs), 4000):
+        t = list(map(int, next(rep).split()))
+        keys += [tuple(t[i:i + 4]) for i in range(0, len(t), 4)]
+    # ---- names: structure = model, and one-to-one
+    seen = {}
+    nbad = 0
+    for (n, m), key in zip(pairs, keys):
+        case = {'n': n, 'm': m}
+        ctx.case('name', case, nontrivial=n >= 2, tag=f'kind{key[0]}' + (f'suf{key[3]}' if key[0] == 4 else ''))
+        args = (n, m) if (n + m) % 3 else (np.int64(n), np.int64(m))
+        st, val = _call2(P.nm_to_name, *args)
+        name = val
+        got = _parse_name(Z, name) if st == 'ok' else None
+        if got != key and nbad < 3:
+            nbad += 1
+            ctx.disagree('name', case, name if st == 'ok' else f'{st}: {val}', list(key))
+            ctx.pred_fail('name', case, f'nm_to_name({n}, {m}) = {name!r}: structure {got}, the convention has (kind, ordinal, |m|, suffix) = {key}')
+        if st == 'ok':
+            if name in seen and nbad < 3:
+                nbad += 1
+                n0, m0 = seen[name]
+                c2 = {'n': n, 'm': m, 'n2': n0, 'm2': m0}
+                ctx.disagree('name', c2, name, 'a name of its own')
+                ctx.pred_fail('name', c2, f'nm_to_name({n0}, {m0}) = nm_to_name({n}, {m}) = {name!r}: the names are not one-to-one')
+            seen.setdefault(name, (n, m))
+    # ---- pairing of the +-m terms
+    nbad = 0
+    for (tag, lst) in lists:
+        t = next(rep).split()
+        groups = []
+        i = 0
+        while i < len(t):
+            n_, a_, ln = int(t[i]), int(t[i + 1]), int(t[i + 2])
+            groups.append(((n_, a_), [int(x) for x in t[i + 3:i + 3 + ln]]))
+            i += 3 + ln
+        npair = sum(1 for _, p in groups if len(p) == 2)
+        case = {'coefs': [list(x) for x in lst]}
+        ctx.case('magang', {'tag': tag, 'len': len(lst), 'first': list(lst[0]), 'c': lst[-1][2]}, nontrivial=npair > 0 and len(groups) > npair,
+                 tag=tag.split(':')[1] + (':pairs+singles' if 0 < npair < len(groups) else ':pairs' if npair else ':singles'))
+        d = _magang_check(P, lst, groups)
+        if d and nbad < 2:
+            nbad += 1
+            small = _shrink_coefs(P, lst, lambda l: _magang_check(P, l, _py_groups(l)))
+            ctx.disagree('magang', {'coefs': small}, d, 'groups of the model')
+            ctx.pred_fail('magang', {'coefs': small}, _magang_check(P, small, _py_groups(small)) or d)
+        # top_n ordering on the same coefficients (distinct |c| almost surely)
+        k = int(ctx.rng.integers(1, len(lst) + 1))
+        ctx.case('top_n', {'tag': tag, 'len': len(lst), 'k': k, 'c': lst[0][2]}, nontrivial=1 < k, tag='all' if k == len(lst) else 'some')
+        d = _topn_check(P, lst, k)
+        if d and nbad < 4:
+            nbad += 1
+            ctx.disagree('top_n', {'coefs': [list(x) for x in lst[:40]], 'k': min(k, len(lst[:40]))}, d, 'descending |coefficient|')
+            small = _shrink_coefs(P, lst, lambda l: _topn_check(P, l, min(k, len(l))))
+            ctx.pred_fail('top_n', {'coefs': small, 'k': min(k, len(small))}, _topn_check(P, small, min(k, len(small))) or d)
+
+
+def _shrink_coefs(P, lst, fails):
+    """greedy removal of terms while the predicate still fails"""
+    cur = [list(x) for x in lst]
+    changed = True
+    while changed and len(cur) > 1:
+        changed = False
+        for i in range(len(cur) - 1, -1, -1):
+            if len(cur) <= 1:
+                break
+            trial = cur[:i] + cur[i + 1:]
+            try:
+                bad = fails([tuple(x) for x in trial])
+            except Exception:
+                bad = None
+            if bad:
+                cur = trial
+                changed = True
+    return cur
+
+
+def _names_search(ctx):
+    P, Z = _zk()
+    seen = {}
+    for n in range(0, ctx.scale(60, 120)):
+        for m in range(-n, n + 1, 2):
+            st, val = _call2(P.nm_to_name, n, m)
+            name = val
+            if st != 'ok' or _parse_name(Z, name) != _name_key(n, m):
+                return {'item': 'name', 'input': {'n': n, 'm': m},
+                        'detail': f'nm_to_name({n}, {m}) = {name!r}, expected structure {_name_key(n, m)}'}
+            if name in seen:
+                n0, m0 = seen[name]
+                return {'item': 'name', 'input': {'n': n, 'm': m, 'n2': n0, 'm2': m0},
+                        'detail': f'nm_to_name({n0}, {m0}) = nm_to_name({n}, {m}) = {name!r}: not one-to-one'}
+            seen[name] = (n, m)
+    for tag, lst in _coef_lists(ctx, None, 60):
+        d = _magang_check(P, lst, _py_groups(lst))
+        if d:
+            small = _shrink_coefs(P, lst, lambda l: _magang_check(P, l, _py_groups(l)))
+            return {'item': 'magang', 'input': {'coefs': small}, 'detail': _magang_check(P, small, _py_groups(small)) or d}
+        for k in (1, 2, max(1, len(lst) // 2), len(lst)):
+            k = min(k, len(lst))
+            d = _topn_check(P, lst, k)
+            if d:
+                small = _shrink_coefs(P, lst, lambda l: _topn_check(P, l, min(k, len(l))))
+                return {'item': 'top_n', 'input': {'coefs': small, 'k': min(k, len(small))}, 'detail': d}
+    return None
+
+
+def _names_replay(item, c):
+    P, Z = _zk()
+    if item == 'name':
+        n, m = c['n'], c['m']
+        st, val = _call2(P.nm_to_name, n, m)
+        name = val
+        print(f'nm_to_name({n}, {m}) -> {st} {name!r}; structure {_parse_name(Z, name) if st == "ok" else None}, the convention has {_name_key(n, m)}')
+        bad = st != 'ok' or _parse_name(Z, name) != _name_key(n, m)
+        if 'n2' in c:
+            other = _call2(P.nm_to_name, c['n2'], c['m2'])
+            print(f'nm_to_name({c["n2"]}, {c["m2"]}) -> {other}')
+            bad = bad or (other[0] == 'ok' and other[1] == val)
+        return bad
+    lst = [tuple(x) for x in c['coefs']]
+    if item == 'magang':
+        print('zernikes_to_magnitude_angle_nmkey ->', _call2(P.zernikes_to_magnitude_angle_nmkey, lst))
+        print('zernikes_to_magnitude_angle       ->', _call2(P.zernikes_to_magnitude_angle, lst))
+        d = _magang_check(P, lst, _py_groups(lst))
+        print('predicate:', d or 'holds')
+        return bool(d)
+    if item == 'top_n':
+        print('top_n ->', _call2(P.top_n, {(n, m): v for n, m, v in lst}, c['k']))
+        d = _topn_check(P, lst, c['k'])
+        print('predicate:', d or 'holds')
+        return bool(d)
+    return False
+
 
 # ------------------------------------------------------------------------------------------------
 # search: the property's predicates on the real code, smallest failing input first
@@ -787,7 +1103,7 @@ def search(ctx, hints):
     # corpus / hints first
     for pf in hints.get('pred_failures', []):
         c = pf['case']
-        if 'j' in c:
+        if 'j' in c or pf['item'] in ('name', 'magang', 'top_n'):
             return {'item': pf['item'], 'input': c, 'detail': pf['detail']}
     best = None
     for conv in CONVS:
@@ -805,6 +1121,9 @@ def search(ctx, hints):
             del ctx.pred_failures[n0:]
             ctx.disagreements.pop()
             return {'item': pf['item'], 'input': pf['case'], 'detail': pf['detail']}
+    r = _names_search(ctx)
+    if r:
+        return r
     # valid pairs through the real inverses
     for conv in ('ansi', 'fringe'):
         for n in range(0, 60):
@@ -829,6 +1148,8 @@ def replay(inp):
     item, c = inp['item'], inp['input']
     conv = item.split('_')[0]
     print('replaying', item, {k: v for k, v in c.items() if k != 'sequence'})
+    if item in ('name', 'magang', 'top_n'):
+        return _names_replay(item, c)
     if 'dtype' in c:
         r = _raw()
         kinds = {**_NPKINDS, **_NARROW}
